@@ -13,7 +13,7 @@ from . import common
 
 LEVEL = 'other'
 EXPLANATION = (
-    "Static analysis (the export definitions folded over mock models). BaseModel.get_data, Frame.get_data and its helpers, PredicateInterpretation.having and Access.flat are folded from source over mock frames/interpretations: (R1) the export lists exactly the model's worlds (sorted) and access pairs (R.flat over those worlds, sorted), and for each world the atomics and opaques read from the same per-frame stores that value_of_atomic/value_of_opaque read, with the stored values; non-modal models export frame 0; (R2) a tuple is in a predicate's extension exactly when its stored value is true-containing (T or B) and in the anti-extension exactly when false-containing (B or F), the anti-extension being exported iff the logic is many-valued, with +/- symbols; (R3) every listing comes out sorted whatever the insertion order. Agreement with value_of for arbitrary compound sentences is C08; per-model values are declined. (R4) Model.finish() folded end to end: every world of the access relation has a completed frame, so the export covers what evaluation reads. (R5) LogicMetaMeta.__new__ folded over every logic's Meta facts: the many_valued flag the export branches on equals 'more than two truth values' for all 57 logics. R1's evaluator side is folded too (value_of_atomic/opaque/predicated return the value stored in frames[world], unassigned when absent).")
+    "Static analysis (the export definitions folded over mock models). BaseModel.get_data, Frame.get_data and its helpers, PredicateInterpretation.having and Access.flat are folded from source over mock frames/interpretations: (R1) the export lists exactly the model's worlds (sorted) and access pairs (R.flat over those worlds, sorted), and for each world the atomics and opaques read from the same per-frame stores that value_of_atomic/value_of_opaque read, with the stored values; non-modal models export frame 0; (R2) a tuple is in a predicate's extension exactly when its stored value is true-containing (T or B) and in the anti-extension exactly when false-containing (B or F), the anti-extension being exported iff the logic is many-valued, with +/- symbols; (R3) every listing comes out sorted whatever the insertion order. Agreement with value_of for arbitrary compound sentences is C08; per-model values are declined. (R4) Model.finish() folded end to end: every world of the access relation has a completed frame, so the export covers what evaluation reads. (R5) LogicMetaMeta.__new__ folded over every logic's Meta facts: the many_valued flag the export branches on equals 'more than two truth values' for all 57 logics. R1's evaluator side is folded too (value_of_atomic/opaque/predicated return the value stored in frames[world], unassigned when absent). R2 runs over every distinct profile of Meta facts among the logics (values, designated values, many_valued, unassigned value), not only over the flag.")
 TRUSTED = ['CPython ast', 'sa.minieval', 'Python sorted()']
 ASSUMPTIONS = ['sorted() over sentences/predicates/tuples relies on the lexical total order (C14)']
 
